@@ -152,6 +152,14 @@ def check_limiter(ctx):
                 sl = arg_origins(p, 1)
                 ctx.require(R2a, sl.via_any("std::time::Instant::now"), p.where(),
                             "the logged instant is Instant::now()", [BUA, "push-value"])
+                # ... read at admission time: no wait (await of a sleep / of anything that suspends) lies between reading the
+                # clock and logging it — a request that waited must be logged with the time it was SENT, not the time it arrived
+                waits = [c2.bb for c2 in b.calls if c2.fn == "core::future::future::Future::poll" and c2.bb in b.live_blocks()]
+                for n in [x for x in sl.calls if x.is_("std::time::Instant::now")]:
+                    fwd = b.reachable_after(n.bb)
+                    stale = [w for w in waits if w in fwd and p.bb in b.reachable_after(w)]
+                    ctx.require(R2a, not stale, n.where(), "the logged instant is read after the last wait of the admission loop (not a stale arrival time)",
+                                [BUA, "push-stale-instant"])
             # returns: only via is_empty true edge or after a push
             ie = b.calls_to("alloc::vec::Vec::is_empty")
             ie_edges = []
